@@ -429,7 +429,8 @@ def check_witnesses(chk: Check, args, rng, maxi):
     from concurrent.futures import ThreadPoolExecutor
     with ThreadPoolExecutor(max_workers=nproc) as ex:
         outs = list(ex.map(lambda p: probe_json('probe_witness.py', stdin=json.dumps(
-            dict(cases=p, max_steps=120 if args.tier == "quick" else 200, export_branches=60)), timeout=3000), parts))
+            dict(cases=p, max_steps=120 if args.tier == "quick" else 200, export_branches=60,
+                 budget_s=3 if args.tier == "quick" else 5)), timeout=3000), parts))
     static = {}
     intro_seen = {}
     n_intro = 0
@@ -444,6 +445,8 @@ def check_witnesses(chk: Check, args, rng, maxi):
                 chk.count('witness_case_error', c['error'].split(':')[0])
                 continue
             chk.count('witness_logic', c['logic'])
+            if c.get('cut'):
+                chk.count('witness_cut_by_probe_budget', c['logic'])
             for it in c['intro']:
                 n_intro += 1
                 n_offer += bool(it['is_offer'])
